@@ -69,6 +69,9 @@ type adRig struct {
 	// (key, cmd) of pending entries and of nil markers after the last call
 	pending [][2]string
 	marked  [][2]string
+	// ids of the pending entries after the last call; channels found closed by the last call
+	pendingIDs []int
+	lastDone   []idOut
 	// dead: the real code panicked in this episode; the store is never touched again
 	dead      bool
 	replaying bool
@@ -96,7 +99,7 @@ func (r *adRig) reset() {
 func (r *adRig) snapshot() {
 	nilFl, fl := rueidis.VerifAdapterSnapshot(r.s)
 	r.nilFl = nilFl
-	r.pending, r.marked = nil, nil
+	r.pending, r.marked, r.pendingIDs = nil, nil, nil
 	if nilFl {
 		r.f = "nil"
 	} else {
@@ -136,6 +139,7 @@ func (r *adRig) snapshot() {
 				} else {
 					items = append(items, fmt.Sprintf("%s:%s=%d@%d", hx(k), hx(c), r.ids[e], rueidis.VerifAdapterEntryXat(e)))
 					r.pending = append(r.pending, [2]string{k, c})
+					r.pendingIDs = append(r.pendingIDs, r.ids[e])
 				}
 			}
 		}
@@ -164,7 +168,9 @@ func (r *adRig) done() string {
 			delete(r.open, p)
 		}
 	}
-	return joinDone(d)
+	s := joinDone(d) // sorts d by id
+	r.lastDone = d
+	return s
 }
 
 // exec: see lruRig.exec for the treatment of panics of the real code
@@ -266,6 +272,7 @@ func (r *adRig) do(line string) adObs {
 		wasMarked = hasKC(r.marked, unhx(w[1]), unhx(w[2]))
 	}
 	nPending := len(r.pending)
+	pendingIDs := append([]int(nil), r.pendingIDs...)
 	obs := r.exec(line)
 	if obs.panicked || obs.skipped {
 		return obs
@@ -328,6 +335,7 @@ func (r *adRig) do(line string) adObs {
 		default:
 			c.Hit("close:no-pending")
 		}
+		closeOracle(c, "adapter:close-skipped-pending", pendingIDs, r.lastDone, w[1])
 	}
 	return obs
 }
